@@ -244,3 +244,75 @@ func UnitCount(v any) int {
 	}
 	return Count(v)
 }
+
+// HasItemless reports whether the payload holds a container that carries no
+// item at all: a resource entry without scopes, a scope entry without
+// records / spans / metrics / profiles, a metric without data points, a
+// profile without samples.
+func HasItemless(v any) bool {
+	switch x := v.(type) {
+	case plog.Logs:
+		for i := 0; i < x.ResourceLogs().Len(); i++ {
+			rl := x.ResourceLogs().At(i)
+			if rl.ScopeLogs().Len() == 0 {
+				return true
+			}
+			for j := 0; j < rl.ScopeLogs().Len(); j++ {
+				if rl.ScopeLogs().At(j).LogRecords().Len() == 0 {
+					return true
+				}
+			}
+		}
+	case ptrace.Traces:
+		for i := 0; i < x.ResourceSpans().Len(); i++ {
+			rs := x.ResourceSpans().At(i)
+			if rs.ScopeSpans().Len() == 0 {
+				return true
+			}
+			for j := 0; j < rs.ScopeSpans().Len(); j++ {
+				if rs.ScopeSpans().At(j).Spans().Len() == 0 {
+					return true
+				}
+			}
+		}
+	case pmetric.Metrics:
+		for i := 0; i < x.ResourceMetrics().Len(); i++ {
+			rm := x.ResourceMetrics().At(i)
+			if rm.ScopeMetrics().Len() == 0 {
+				return true
+			}
+			for j := 0; j < rm.ScopeMetrics().Len(); j++ {
+				ms := rm.ScopeMetrics().At(j).Metrics()
+				if ms.Len() == 0 {
+					return true
+				}
+				for k := 0; k < ms.Len(); k++ {
+					one := pmetric.NewMetrics()
+					ms.At(k).CopyTo(one.ResourceMetrics().AppendEmpty().ScopeMetrics().AppendEmpty().Metrics().AppendEmpty())
+					if one.DataPointCount() == 0 {
+						return true
+					}
+				}
+			}
+		}
+	case pprofile.Profiles:
+		for i := 0; i < x.ResourceProfiles().Len(); i++ {
+			rp := x.ResourceProfiles().At(i)
+			if rp.ScopeProfiles().Len() == 0 {
+				return true
+			}
+			for j := 0; j < rp.ScopeProfiles().Len(); j++ {
+				ps := rp.ScopeProfiles().At(j).Profiles()
+				if ps.Len() == 0 {
+					return true
+				}
+				for k := 0; k < ps.Len(); k++ {
+					if ps.At(k).Sample().Len() == 0 {
+						return true
+					}
+				}
+			}
+		}
+	}
+	return false
+}
